@@ -937,18 +937,19 @@ impl XmlCData {
         XmlCData::node("", None, context)
     }
 
-    pub fn delete(&mut self, offset: usize, count: usize) {
-        self.data = delete_char_range(self.data.as_str(), offset, count);
+    fn check(value: &str) -> error::Result<bool> {
+        let new = format!("<![CDATA[{}]]>", value);
+        let (rest, _) = xml_parser::cdsect(new.as_str())?;
+        Ok(rest.is_empty())
+    }
+
+    pub fn delete(&mut self, offset: usize, count: usize) -> error::Result<()> {
+        self.data = delete_char_range(self.data.as_str(), offset, count, Self::check)?;
+        Ok(())
     }
 
     pub fn insert(&mut self, offset: usize, data: &str) -> error::Result<()> {
-        fn check(value: &str) -> error::Result<bool> {
-            let new = format!("<![CDATA[{}]]>", value);
-            let (rest, _) = xml_parser::cdsect(new.as_str())?;
-            Ok(rest.is_empty())
-        }
-
-        self.data = insert_char_at(self.data.as_str(), offset, data, check)?;
+        self.data = insert_char_at(self.data.as_str(), offset, data, Self::check)?;
         Ok(())
     }
 
@@ -1166,18 +1167,19 @@ impl XmlComment {
         XmlComment::node("", None, context)
     }
 
-    pub fn delete(&mut self, offset: usize, count: usize) {
-        self.comment = delete_char_range(self.comment.as_str(), offset, count);
+    fn check(value: &str) -> error::Result<bool> {
+        let new = format!("<!--{}-->", value);
+        let (rest, _) = xml_parser::comment(new.as_str())?;
+        Ok(rest.is_empty())
+    }
+
+    pub fn delete(&mut self, offset: usize, count: usize) -> error::Result<()> {
+        self.comment = delete_char_range(self.comment.as_str(), offset, count, Self::check)?;
+        Ok(())
     }
 
     pub fn insert(&mut self, offset: usize, comment: &str) -> error::Result<()> {
-        fn check(value: &str) -> error::Result<bool> {
-            let new = format!("<!--{}-->", value);
-            let (rest, _) = xml_parser::comment(new.as_str())?;
-            Ok(rest.is_empty())
-        }
-
-        self.comment = insert_char_at(self.comment.as_str(), offset, comment, check)?;
+        self.comment = insert_char_at(self.comment.as_str(), offset, comment, Self::check)?;
         Ok(())
     }
 
@@ -3529,17 +3531,18 @@ impl XmlText {
         XmlText::node("", None, context)
     }
 
-    pub fn delete(&mut self, offset: usize, count: usize) {
-        self.text = delete_char_range(self.text.as_str(), offset, count);
+    fn check(value: &str) -> error::Result<bool> {
+        let (rest, content) = xml_parser::content(value)?;
+        Ok(rest.is_empty() && content.children.is_empty())
+    }
+
+    pub fn delete(&mut self, offset: usize, count: usize) -> error::Result<()> {
+        self.text = delete_char_range(self.text.as_str(), offset, count, Self::check)?;
+        Ok(())
     }
 
     pub fn insert(&mut self, offset: usize, text: &str) -> error::Result<()> {
-        fn check(value: &str) -> error::Result<bool> {
-            let (rest, content) = xml_parser::content(value)?;
-            Ok(rest.is_empty() && content.children.is_empty())
-        }
-
-        self.text = insert_char_at(self.text.as_str(), offset, text, check)?;
+        self.text = insert_char_at(self.text.as_str(), offset, text, Self::check)?;
         Ok(())
     }
 
@@ -4250,7 +4253,10 @@ fn char_from_char16(value: &str) -> error::Result<char> {
     char::from_u32(num).ok_or(error::Error::NotFoundReference(format!("#x{}", value)))
 }
 
-fn delete_char_range(value: &str, offset: usize, count: usize) -> String {
+fn delete_char_range<F>(value: &str, offset: usize, count: usize, check: F) -> error::Result<String>
+where
+    F: Fn(&str) -> error::Result<bool>,
+{
     let mut chars = value.chars().collect::<Vec<char>>();
 
     let s = if offset < chars.len() {
@@ -4259,7 +4265,7 @@ fn delete_char_range(value: &str, offset: usize, count: usize) -> String {
         chars.len()
     };
 
-    let e = if s + count < chars.len() {
+    let e = if count < chars.len() - s {
         s + count
     } else {
         chars.len()
@@ -4267,7 +4273,13 @@ fn delete_char_range(value: &str, offset: usize, count: usize) -> String {
 
     chars.drain(s..e);
 
-    chars.iter().collect()
+    // A forbidden sequence may arise where the characters around the deleted range meet.
+    let remaining = chars.iter().collect::<String>();
+    if check(remaining.as_str())? {
+        Ok(remaining)
+    } else {
+        Err(error::Error::InvalidData(remaining))
+    }
 }
 
 fn equal_qname(a: xml_nom::model::QName, b: xml_nom::model::QName) -> bool {
@@ -4312,14 +4324,17 @@ where
         chars.len()
     };
 
-    if check(new)? {
-        let mut tail = chars.split_off(index);
-        let mut middle = new.chars().collect::<Vec<char>>();
+    let mut tail = chars.split_off(index);
+    let mut middle = new.chars().collect::<Vec<char>>();
 
-        chars.append(&mut middle);
-        chars.append(&mut tail);
+    chars.append(&mut middle);
+    chars.append(&mut tail);
 
-        Ok(chars.iter().collect())
+    // The whole result is checked: a forbidden sequence may only arise where the new
+    // characters meet the existing ones.
+    let combined = chars.iter().collect::<String>();
+    if check(combined.as_str())? {
+        Ok(combined)
     } else {
         Err(error::Error::InvalidData(new.to_string()))
     }
